@@ -77,7 +77,17 @@ def build_shot(p: Dict[str, Any]):
     def until(i, ft):
         un = [U.Foot, U.Yard, U.Meter, U.Inch][i % 4] if p.get("wind_units", True) else U.Foot
         return un(U.Foot(ft) >> un)
-    winds = [m.Wind(U.FPS(w[0]), U.Degree(w[1]), until(i, w[2])) for i, w in enumerate(p.get("winds", []))]
+    winds = []
+    for i, w in enumerate(p.get("winds", [])):
+        if (i + len(p["winds"])) % 2:
+            # a Wind object that had another speed / direction / end first, was looked at (vector, until-distance), and was then
+            # re-assigned in place: what counts is what it says when the shot is fired
+            wo = m.Wind(U.FPS(w[0] + 7.0), U.Degree(w[1] + 33.0), until(i, w[2] * 0.5 + 10.0))
+            _ = (wo.vector, wo.until_distance >> U.Foot)
+            wo.velocity, wo.direction_from, wo.until_distance = U.FPS(w[0]), U.Degree(w[1]), until(i, w[2])
+        else:
+            wo = m.Wind(U.FPS(w[0]), U.Degree(w[1]), until(i, w[2]))
+        winds.append(wo)
     # every other multi-segment list is assigned through the public setter instead of the constructor
     via_setter = p.get("winds_setter", len(winds) >= 2 and int(winds[0].velocity.raw_value * 1000) % 2 == 0)
     shot = m.Shot(weapon=weapon, ammo=ammo, look_angle=U.Degree(p.get("look_deg", 0.0)),
